@@ -36,7 +36,7 @@ fn strategy(tier: Tier) -> BoxedStrategy<Case> {
     (any::<bool>(), prop::bool::weighted(0.15), prop::bool::weighted(0.3), prop::bool::weighted(0.5))
         .prop_flat_map(move |(v6, asymmetric, emsgsize, lossy)| {
             (
-                gens::link_mtu(v6), gens::link_mtu(v6), 0u16..=1000, 0u16..=1000, 0u8..4, 0u8..4,
+                gens::link_mtu_wide(v6), gens::link_mtu_wide(v6), 0u16..=1000, 0u16..=1000, 0u8..4, 0u8..4,
                 gens::rnd_stream(), gens::rnd_stream(), (1u16..40), if lossy { gens::fates_fair(600, 60) } else { Just(vec![]).boxed() }, any::<u64>(),
                 (prop_oneof![1 => Just(0u32), 1 => 1u32..20_000],
                 prop::option::weighted(0.4, prop::collection::vec((prop_oneof![3 => 1u32..1000, 3 => 400u32..1600, 1 => 1600u32..12_000], prop_oneof![2 => Just(0u32), 3 => 1u32..120, 1 => 120u32..900]), 20..120))),
@@ -61,7 +61,8 @@ fn strategy(tier: Tier) -> BoxedStrategy<Case> {
                         if !asymmetric { net.path_mtu.1 = Some(p0); }
                     }
                     // long enough to converge: `segs` segments of the largest size
-                    let mut total = (segs * s0.max_payload() as u32).min(1_500_000).max(20_000);
+                    // (the byte cap keeps Ethernet-size cases cheap; above it the number of segments is what matters)
+                    let mut total = (segs * s0.max_payload() as u32).min(1_500_000).max(20_000).max(100 * s0.max_payload() as u32);
                     let mut a_w = vec![WOp::Write { n: total, chunk: 1 << 20 }, WOp::Flush];
                     let is_trickle = trickle.is_some();
                     if let Some(pieces) = trickle {
